@@ -14,6 +14,7 @@ PROPS['C14'] = dict(
     stages=[
         dict(name='replay', variant='plain', harness='c14_isolation.cpp', quick=2000, thorough=40000),
         dict(name='interfere', variant='plain', harness='c14_isolation.cpp', quick=2000, thorough=40000),
+        dict(name='fresh', variant='plain', harness='c14_isolation.cpp', quick=3200, thorough=48000, budget=120),
         dict(name='threads', variant='plain', harness='c14_isolation.cpp', quick=240, thorough=5000, jobs=4, budget=120),
         dict(name='tsan', variant='tsan', harness='c14_isolation.cpp', quick=24, thorough=600, jobs=4, budget=600),
     ],
